@@ -182,6 +182,10 @@ pub struct PlanA {
     pub timeouts: bool,
     #[serde(default)]
     pub store_faults: Vec<StoreFault>,
+    /// Poplar1: storage offsets (bits into the first storage word) of the IdpfInputs handed to the
+    /// library (measurements and candidate prefixes); empty = aligned
+    #[serde(default)]
+    pub bit_offsets: Vec<u8>,
 }
 
 #[derive(Clone)]
@@ -988,7 +992,15 @@ impl<'p, 'c, 'cc, V: SimVdaf<VK>, A: Adapter<V>, const VK: usize> World<'p, 'c, 
                         let apv = &self.aps[env.ap as usize];
                         let back = mon_decode(self.ctx, "OutputShare", &ob, self.pimplied, |x| V::OutputShare::get_decoded_with_param(&(vdaf, apv), x), |v| v.get_encoded(), |v| v.encoded_len());
                         if back.is_none() {
-                            self.ctx.fail(Violation::new("C07.roundtrip", "OutputShare|undecodable", "output share does not decode from its own encoding"));
+                            // a stored state that was corrupted at rest and still decoded is a DIFFERENT
+                            // valid state (e.g. a leaf-level state under an inner-level parameter); its
+                            // output share need not be a value of this job's decoding parameter
+                            let corrupted = self.nodes[j].jobs.get(&(env.rep, env.ap)).map(|job| job.store_corrupted).unwrap_or(false);
+                            if corrupted {
+                                self.ctx.counters.inc("c07.output_of_corrupted_state_not_judged");
+                            } else {
+                                self.ctx.fail(Violation::new("C07.roundtrip", "OutputShare|undecodable", "output share does not decode from its own encoding"));
+                            }
                         }
                         self.ctx.trace.str("next_finish").bytes(&ob);
                         if let Some(job) = self.nodes[j].jobs.get_mut(&(env.rep, env.ap)) {
